@@ -599,7 +599,11 @@ func (x *Exec) runStmt(ctx context.Context, w wire.DataWriter, params []wire.Par
 		}
 		ps = append(ps, rec)
 	}
-	x.cb(ctx, x.withCtx(ctx, M{"name": "stmt.start", "def": I(st, "id"), "si": si, "params": ps}, true))
+	wcols := []any{}
+	for _, c := range w.Columns() {
+		wcols = append(wcols, c.Name)
+	}
+	x.cb(ctx, x.withCtx(ctx, M{"name": "stmt.start", "def": I(st, "id"), "si": si, "params": ps, "wcols": wcols}, true))
 	var cr *wire.CopyReader
 	for _, ov := range L(st, "prog") {
 		op := AsM(ov)
@@ -623,7 +627,15 @@ func (x *Exec) runStmt(ctx context.Context, w wire.DataWriter, params []wire.Par
 			if err == nil {
 				cr = r
 			}
-			x.cb(ctx, M{"name": "dw.copyin", "ret": retClass(err), "written": int(w.Written())})
+			ev := M{"name": "dw.copyin", "ret": retClass(err), "written": int(w.Written())}
+			if err == nil {
+				rcols := []any{}
+				for _, c := range r.Columns() {
+					rcols = append(rcols, c.Name)
+				}
+				ev["rcols"] = rcols
+			}
+			x.cb(ctx, ev)
 		case "copyread":
 			if cr == nil {
 				continue
